@@ -116,6 +116,20 @@ def specOp (sp : Spec) (m : State) (o : Drv.Op) (impl : String) : Spec :=
       sp.fail s!"path closed but requests {sp.open_} were never answered"
     else sp
 
+/-- `runs` query: answer `runs=<alive> max=<most alive at once since the last query>` for the Run()
+invocations of the static source instance: never two at a time, none once the handler is stopped
+("on-demand sources … stop after the close delay … and restart on later demand"). -/
+def specRuns (sp : Spec) (impl : String) : Spec :=
+  let sp := { sp with err := none }
+  let toks := Drv.implToks impl
+  match toks.findSome? (Drv.tokNat "runs="), toks.findSome? (Drv.tokNat "max=") with
+  | some a, some m =>
+    if m > 1 then sp.fail s!"{m} Run() invocations of the static source were alive at the same time"
+    else if a > 0 && !sp.srcOn then
+      sp.fail s!"the static source handler is stopped but {a} Run() of its instance is still alive"
+    else sp
+  | _, _ => if toks.contains "runs=na" then sp else sp.fail "runs: unparsable answer"
+
 def Spec.verdict (sp : Spec) : String :=
   match sp.err with
   | some m => "FAIL " ++ m
